@@ -114,3 +114,31 @@ package wallet
 // counter never runs into the trailing empty batches (which are the restore gap limit)
 //@   calls (storage.WalletDB).IncrementKeysetCounter asserts @nonempty [C19] len(restoreResponse.Signatures) > 0
 //@   loop 3 invariant savedCounter == wdb.counter[keyset.Id] % 4294967296
+
+// ---- proof selection and fees (C18)
+//@ macro wfeesum(ps, mint, n) = wfee.sum(seq(ps), mint.activeKeyset.Id, mint.activeKeyset.InputFeePpk, mapkeys(mint.inactiveKeysets), mapvals(mint.inactiveKeysets), n)
+// ceil(sum of ppk / 1000), exactly as the machine computes it
+//@ macro wfee(ps, mint) = ((wfeesum(ps, mint, len(ps)) % 18446744073709551616 + 999) % 18446744073709551616) / 1000
+
+//@ func feesForProofs
+//@   tags C18
+//@   safety C06 C18
+//@   ensures @ceil [C18] result == wfee(proofs, mint)
+//@   loop range(proofs) invariant 0 <= i && i <= len(proofs) && fees == wfeesum(proofs, mint, i) % 18446744073709551616
+
+// ceil(count * ppk / 1000)
+//@ func feesForCount
+//@   tags C18
+//@   safety C06 C18
+//@   requires 0 <= count
+//@   ensures @ceil [C18] result == (((count * keyset.InputFeePpk) % 18446744073709551616 + 999) % 18446744073709551616) / 1000
+//@   loop 1 invariant 0 <= i && i <= count && fees == (i * keyset.InputFeePpk) % 18446744073709551616
+
+// A successful selection covers the amount plus (when asked) the input fee of exactly the proofs selected.
+//@ macro psum(ps) = sum.proof.amount(seq(ps), len(ps))
+//@ func selectProofsToSend
+//@   tags C18
+//@   requires mint != nil && amount <= 4611686018427387904
+//@   ensures @covers [C18] r1 == nil ==> psum(r0) % 18446744073709551616 >= amount + (includeFees ? wfee(r0, mint) : 0)
+//@   loop 2 invariant selectedProofsSum == psum(selectedProofs) % 18446744073709551616 && (selectedProofs == nil || (selectedProofs != smallerProofs && selectedProofs != biggerProofs && selectedProofs != proofs))
+//@   loop 3 invariant selectedProofs == nil || (selectedProofs != smallerProofs && selectedProofs != biggerProofs && selectedProofs != proofs && selectedProofs != tempSmaller)
